@@ -79,6 +79,9 @@ inductive Ev where
   | csi (params inter : Bytes) (final : Nat)
   /-- NUL (ctrl+@): not in the table, detectOneMsg handles it itself -/
   | nul
+  /-- alt + a printable character: ESC followed by the UTF-8 encoding of ONE printable character
+  (the tail of detectOneMsg: `alt = true`, exactly one rune is taken after the ESC) -/
+  | altRune (r : Nat)
   deriving DecidableEq, Repr
 
 /-- the bytes the terminal sends for an event -/
@@ -90,6 +93,7 @@ def Ev.bytes : Ev → Bytes
   | .paste p => bpStart ++ p ++ bpEnd
   | .csi ps is f => csiBytes ps is f
   | .nul => [0]
+  | .altRune r => 0x1b :: encodeRune r
 
 /-- the message the event must become (the messages of C08 / C10 / C11) -/
 def Ev.msg : Ev → Msg
@@ -103,6 +107,7 @@ def Ev.msg : Ev → Msg
   | .paste p => .key { type := keyRunes, paste := true, runes := pasteRunes p.length p }
   | .csi ps is f => .unknownCSI (csiBytes ps is f)
   | .nul => .key { type := keyNUL }
+  | .altRune r => .key { type := keyRunes, runes := [r], alt := true }
 
 def Ev.isRun : Ev → Bool
   | .run _ => true
@@ -123,7 +128,20 @@ def keyStableB (T : Table) (e : Entry) : Bool :=
 * paste: the payload does not contain the end marker;
 * unknown CSI: parameter bytes, intermediate bytes, a final byte; not a mouse / paste introducer
   or focus report; no key of the table is comparable with it;
-* NUL: no key of the table starts with NUL. -/
+* NUL: no key of the table starts with NUL;
+* alt + character `ESC utf8(r)`: `r` is `printableScalar` (so not a control character, space or
+  DEL: `ESC` + those are KEYS of the table, event class `key`; and not U+FFFD); `r` is not `[`
+  (`ESC [` opens a CSI sequence, a mouse report, a paste or a focus report: there the bytes that
+  follow decide, and `ESC [` alone is comparable with every introducer); and no key of the table
+  is comparable with `ESC utf8(r)` (`incomparableB`):
+  - no key is a prefix of it — it is not itself a key, and neither `ESC` alone nor `ESC` + the
+    first bytes of `utf8(r)` is one (detectSequence would take that key first);
+  - it is not a proper prefix of a key — excludes alt + a character that STARTS a known
+    sequence, e.g. `ESC O` (SS3 keys `ESC O A` …) and `ESC [`: at the end of a full read the
+    decoder's `isIncompleteEvent` holds it back, and the bytes of the next event could complete
+    the key (`ESC O` + the run `A` IS the up arrow).
+  Both directions are necessary (the model really decodes differently otherwise), so this is
+  the weakest condition under which `ESC utf8(r)` followed by ANY bytes is alt+`r`. -/
 def Ev.ok (T : Table) : Ev → Bool
   | .run rs => !rs.isEmpty && rs.all printableScalar
   | .key e => decide (e ∈ T) && keyStableB T e
@@ -133,9 +151,12 @@ def Ev.ok (T : Table) : Ev → Bool
   | .csi ps is f => ps.all isParam && is.all isInter && isFinal f &&
       csiPlain (csiBytes ps is f) && incomparableB T (csiBytes ps is f)
   | .nul => incomparableB T [0]
+  | .altRune r => printableScalar r && r != 0x5b && incomparableB T (0x1b :: encodeRune r)
 
 /-- a well-formed stream of events: every event satisfies its side condition, and runs of
-printable characters are maximal (no two runs in a row: what follows a run stops it) -/
+printable characters are maximal (no two runs in a row: what follows a run stops it).  An
+`altRune` followed by a `run` is fine (alt takes exactly ONE character after the ESC, the run
+is the next message), and so is a `run` followed by an `altRune` (the ESC stops the run). -/
 def WellFormed (T : Table) : List Ev → Bool
   | [] => true
   | e :: tl => e.ok T &&
